@@ -62,7 +62,7 @@ c.ens("truthy-table", lambda S_: bv(S_.result) == Lower_in_truthy(sv(S_.a.string
 c.modifies = lambda S_: []
 
 # ---------------------------------------------------------------- TriggerContext.evaluate_expression
-c = contract(TC, "TriggerContext.evaluate_expression", ["C10", "C01"])
+c = contract(TC, "TriggerContext.evaluate_expression", ["C10", "C01", "C06"])
 c.param("self", OBJ("TriggerContext")).param("expression", ANY)
 c.result = ANY
 c.logged = "evaluate_expression"
